@@ -99,7 +99,7 @@ IP::IP(const uint8_t* buffer, uint32_t total_sz) {
     // While the end of the options is not reached read an option
     while (stream.pointer() < options_end) {
         option_identifier opt_type = (option_identifier)stream.read<uint8_t>();
-        if (opt_type.number > NOOP) {
+        if (!is_single_byte_option(opt_type)) {
             // Multibyte options with length as second byte
             const uint32_t option_size = stream.read<uint8_t>();
             if (TINS_UNLIKELY(option_size < (sizeof(uint8_t) << 1))) {
